@@ -191,6 +191,11 @@ func c13multi(c *Ctx) {
 	// who builds it: NewMultiWriteSyncer, CombineWriteSyncers (the same behind
 	// Lock), or zap.Open over sinks from a registered factory
 	via := g.Weighted(3, 1, 1)
+	// one run in four: every failing sink fails with one and the same error value
+	sharedErr := g.Chance(4)
+	if sharedErr {
+		c.R.Probe("failing sinks share one error value")
+	}
 	if via == 2 {
 		shape = 0
 		c13register.Do(func() {
@@ -222,6 +227,9 @@ func c13multi(c *Ctx) {
 			s := zsim.NewSimSink(r, name, 1, 1)
 			o, e := c13outcome(cc%6, plen, name, v+i)
 			cc /= 6
+			if sharedErr && e != nil {
+				o.Err, e = errC13shared, errC13shared
+			}
 			s.WritePlan = []zsim.Outcome{o}
 			if e != nil {
 				wantErrs = append(wantErrs, e)
@@ -233,6 +241,9 @@ func c13multi(c *Ctx) {
 			// sync outcome: drawn from the vector index so that both occur at every position
 			if (v>>uint(i))&1 == 1 {
 				se := fmt.Errorf("injected sync error on %s", name)
+				if sharedErr {
+					se = errC13shared
+				}
 				s.SyncPlan = []error{se}
 				wantSyncErrs = append(wantSyncErrs, se)
 				c.Fault("sink-sync-error")
@@ -344,6 +355,9 @@ func c13multi(c *Ctx) {
 				var se error
 				if ((v+round)>>uint(i))&1 == 1 {
 					se = fmt.Errorf("injected sync error #%d on %s", round, s.Name)
+					if sharedErr {
+						se = errC13shared
+					}
 					want2 = append(want2, se)
 				}
 				// the outcome holds for every Sync call the sink receives in this
@@ -409,13 +423,26 @@ func c13errsMatch(got error, want []error) bool {
 	if got == nil {
 		return false
 	}
+	text := got.Error()
+	mult := map[string]int{}
 	for _, w := range want {
-		if !errors.Is(got, w) && !strings.Contains(got.Error(), w.Error()) {
+		if !errors.Is(got, w) && !strings.Contains(text, w.Error()) {
+			return false
+		}
+		mult[w.Error()]++
+	}
+	// "all of their errors": sinks that fail with one and the same error value
+	// (two files on one full disk) are still that many failures
+	for t, n := range mult {
+		if n > 1 && strings.Count(text, t) < n {
 			return false
 		}
 	}
 	return true
 }
+
+// errC13shared: one error value returned by several sinks at once.
+var errC13shared = errors.New("no space left on the device the sinks share")
 
 // ---- (lock) ----
 
